@@ -11,13 +11,14 @@ CONSTANTS
   PREC = 100
   DEVIATIONS = {}
   EXTRAS = {0, 1, 2}
-  TAXES = {0, 2}
+  TAXES = {0, 2, 100}
   REWARDS = {0, 5}
   FEES = {0, 1, 7, 100}
   PATHS = {"bank", "tx"}
   BURNS = {1, 3}
   DELAMTS = {1, 2, 3}
   MAXDEL = 4
+  MAXUPD = 2
   MAXJAIL = 1
   MAXEPOCHS = 5
   MAXOPS = 16
